@@ -44,7 +44,7 @@ CLAIMS = {
         "writer and value shape (INV1), and the "
         "functions with direct destructor sites are the reviewed closed table. Holds for every N, layout, argument "
         "and choice of panicking destructor because none of the obligations depends on them. The step from the "
-        "obligations to 'no second drop' is a short argument in DESIGN.md, not machine-checked, hence level other.",
+        "obligations to 'no second drop' is a short argument in DESIGN.md, not machine-checked, hence level other. Also DRN1 a-c,f and DRNVIEW1: while Drain::drop runs destructors the header claims nothing (size := 0 when the Drain was built) and the destructors are handed the un-yielded part only, so neither a panicking element nor one already yielded is destroyed again.",
         note="Relies on INV1 (checked under C04) for the values stored to size/start; trusted: rustc MIR/drop "
         "elaboration, driver serialisation, the reviewed table rules/tables.py.",
         ref="DESIGN.md §5 C05",
@@ -69,7 +69,7 @@ CLAIMS = {
         "classified progress argument (TERM1): exit by a std iterator's None; `while size < B` whose body increases size by "
         "one on every path under the loop's facts (callee paths projected); a counter moved towards its bound by an entailed "
         "step >= 1 — the back-fill step of Drain::drop is value-level and listed as undecided; an exit test over operands "
-        "the body never changes is reported. Not decided: single-element bounds checks (counted; infeasible under INV).",
+        "the body never changes is reported. Not decided: single-element bounds checks (counted; infeasible under INV). In the debug build (thorough tier) the three stated beliefs of Drain::read and the saved-size assertions of the drain views are now *proved* from their callers (std Range::next / next_back modelled as axioms: next hands out the old start and advances it, next_back retreats the end and hands out the new end, both only while start < end; a panic block shared by several failing tests is judged edge by edge), so a change of one of them is reported (DBGASSERT1).",
         note="Assumes INV (checked by INV1 under C04) and core's RangeBounds impls; single-element bounds checks are "
         "not judged; SUB1/RIDX1 report only obligations over transparent operands.",
         ref="DESIGN.md §5 C11",
@@ -100,7 +100,7 @@ CLAIMS = {
         "functions can destroy, bit-copy, move out, disarm or contains unsafe code (all others are safe code over T); in "
         "those, every move-out is paired with the size decrease and every size increase with the slot write, slots are "
         "written only when already counted, every public entry returns balanced; the owners (buffer Drop, IntoIter, "
-        "Drain::drop, From<[T;M]>) destroy what they hold. Also: drop_range returns without destroying only for an empty range (DESTROY1), the drain's un-yielded views are bounded by iter, never by range (DRNVIEW1), no iterator type overrides a provided method that moves or skips elements (ITERSET1), what Drain::next/next_back hand out is read(i) for exactly the index the range iterator just produced (DRAINIT1), and the two pieces handed to the destructors (Drain views, drop_range) are one contiguous piece only where the guard facts entail lower < upper strictly and a split only where they entail upper <= lower (VIEWCMP1). The geometry of the drain's back-fill is decided as equalities of linear forms over the Drain's fields (BACKFILL2): destination starts at start + range.start, source at start + range.end, source + count = buf_size, restored size = destination + count, and each iteration advances both cursors and reduces the counter by exactly the copied count; and the typestate 'size is 0 while a Drain exists' (DRN1 a-c,f). Not decided: the slot ranges passed to ptr::copy in remove and From<[T;M]> (values).",
+        "Drain::drop, From<[T;M]>) destroy what they hold. Also: drop_range returns without destroying only for an empty range (DESTROY1), the drain's un-yielded views are bounded by iter, never by range (DRNVIEW1), no iterator type overrides a provided method that moves or skips elements (ITERSET1), what Drain::next/next_back hand out is read(i) for exactly the index the range iterator just produced (DRAINIT1), and the two pieces handed to the destructors (Drain views, drop_range) are one contiguous piece only where the guard facts entail lower < upper strictly and a split only where they entail upper <= lower (VIEWCMP1). The geometry of the drain's back-fill is decided as equalities of linear forms over the Drain's fields (BACKFILL2): destination starts at start + range.start, source at start + range.end, source + count = buf_size, restored size = destination + count, and each iteration advances both cursors and reduces the counter by exactly the copied count; and the typestate 'size is 0 while a Drain exists' (DRN1 a-c,f). REMOVE2: on every feasible path through remove the bulk copies form the chain start+index+1 -> start+size (mod N), each shifting by one slot, starting right behind the slot read out (or, mirrored, the head chain with start advanced by one); FROMARR2: From<[T;M]> destroys [0, M-size) and bit-copies [M-size, M) — complementary blocks — and counts exactly the copied elements. Not decided: element order inside one bulk copy (memmove is trusted); chunk lengths inside CircularSlicePtr.",
         note="Tables in rules/tables.py are reviewed by hand against the source; trusted: Rust's guarantees for safe "
         "code, rustc MIR. Range arithmetic not decided.",
         ref="DESIGN.md §5 C03",
@@ -117,7 +117,7 @@ CLAIMS = {
         "(REINT1); the header is shrunk before drop_range runs destructors and not written afterwards (PS1); the observers "
         "(eq/ord/hash/Debug) read the contents only through len/as_slices/iter and feed std's algorithms element by element "
         "(OBS1/ORD1/HASH1/DBG1), and the positional accessors answer from the logical position only (NONE1/DERIV1) — the "
-        "'equal contents are indistinguishable' clause. Also: a physical slot position add_mod(start,i,N) used to index/offset/swap storage needs i<size (ACC2b); index-kind inference: physical positions and logical indices/lengths are never compared nor substituted for each other, and the backing array is sliced only by physical positions (KIND1); DRNVIEW1; BACKFILL2 (the back-fill of Drain::drop copies exactly the live tail [range.end, buf_size) onto the hole and restores size = range.start + moved, as linear-form equalities) and DRN1 a-c,f (the header claims nothing while a Drain, which may be leaked, exists). Not decided: bounds arithmetic inside the slice views; two-run non-interference.",
+        "'equal contents are indistinguishable' clause. Also: a physical slot position add_mod(start,i,N) used to index/offset/swap storage needs i<size (ACC2b); index-kind inference: physical positions and logical indices/lengths are never compared nor substituted for each other, and the backing array is sliced only by physical positions (KIND1); DRNVIEW1; BACKFILL2 (the back-fill of Drain::drop copies exactly the live tail [range.end, buf_size) onto the hole and restores size = range.start + moved, as linear-form equalities) and DRN1 a-c,f (the header claims nothing while a Drain, which may be leaked, exists); REMOVE2 (remove's copies close exactly the gap: a chain start+index+1 -> start+size modulo N shifting by one). Not decided: bounds arithmetic inside the slice views; two-run non-interference.",
         note="One INV1 store (extend_from_slice size + other.len()) is listed as an assumption, not decided. Drain::read "
         "is a named exception (unsafe fn with a value-level contract).",
         ref="DESIGN.md §5 C04",
@@ -182,7 +182,7 @@ CLAIMS = {
         "free in every configuration; the only additional functions are boxed(), to_vec() (exempt) and the I/O impls, "
         "whose callees are restricted to in-crate functions, core and an allow-listed &[u8] reader (ALLOC1); no extern "
         "blocks. The three feature configurations build on stable. BUILD+CFGDIFF1+ALLOC1 imply the statement; the "
-        "implication is an argument, not machine-checked.",
+        "implication is an argument, not machine-checked. NOSTD per configuration: every configuration without the `std` feature neither names nor links `std`, and only those with the `alloc` feature name or link `alloc` (crate graph and extern-crate items read from the compiler for each feature set).",
         note="Trusted: `core` does not allocate; the allow-listed readers (std / embedded-io 0.6.1) do not allocate; "
         "element types are non-allocating (statement). Panic paths excluded by the statement.",
         ref="DESIGN.md §5 C17",
@@ -216,7 +216,7 @@ CLAIMS = {
         "comparisons), that async write/flush/fill_buf contain no suspension point and read awaits only the &[u8] reader "
         "whose coroutine has no suspension state (so never Pending), that the error type is Infallible, that no modulus/"
         "index by capacity zero is reachable from these entries, and that all feature combinations build. Behaviour of "
-        "the std impls themselves is C14.",
+        "the std impls themselves is C14. The skeletons include the branch conditions in canonical positive form (which slice fill_buf prefers, when read stops).",
         note="[twin] rule: a behaviour-preserving rewrite of one sibling would also be reported. Trusted: the external "
         "&[u8] readers of embedded-io 0.6.1 / embedded-io-async 0.6.1 (pinned in Cargo.lock, checked) agree with std's.",
         ref="DESIGN.md §5 C16",
